@@ -82,7 +82,7 @@ JUNK = ["REMARK 465 MISSING RESIDUES", "ANISOU    1  N   MET A   1     2406   18
         "MASTER      290    0    4    7   14    0    0    6 2015    2    0   19", "END", "", "   ",
         "HEADER    TEST", "CRYST1   52.000   58.600   61.900  90.00  90.00  90.00 P 21 21 21    8",
         "SITE     1 AC1  3 HIS A  94  HIS A  96  HIS A 119", "LINK         SG  CYS A   6                 SG  CYS A 127",
-        "SSBOND   1 CYS A    6    CYS A  127", "ATOMS", "TERMINAL", "HET    HOH  A 201       1"]
+        "SSBOND   1 CYS A    6    CYS A  127", "ATOMS", "TERMINAL", "HET    HOH  A 201       1", "ENDMDL", "ENDMDL"]
 
 
 def edit_records(recs, rng):
